@@ -4,7 +4,7 @@ CONSTANTS
   AsyncNodes = {"n2"}
   Kinds = {"spl"}
   ParallelNum = 2
-  Reqs = {"r1", "r2", "r3", "r4"}
+  Reqs = {"r1", "r2", "r3", "r4", "r5"}
   Dsns = {"n1", "n2", ""}
   Hdrs = {"", "0", "1"}
   ViaHTTP = FALSE
@@ -18,5 +18,5 @@ CONSTANTS
   MaxNow = 0
   WdKinds <- WdKindsOne
   QWdFirst = TRUE
-INVARIANTS TypeOK QueuedOnceInItsPool PendingIffQueued NamedNodeObeyed SelectionInRange PreferInserting OneLoopPerWorker RunImpliesInit
+INVARIANTS SelectionInRange
 CHECK_DEADLOCK FALSE
